@@ -377,6 +377,7 @@ func Run(run *core.Run) {
 		journal := disk.Journal[journalStart:]
 		run.Event("save#%d fault=%s err=%v writes=%d resolverFired=%d diskFired=%d", si, faultNames[s.fault], serr != nil, len(journal), rw.Fired, disk.Fired)
 		run.Count("saves")
+		run.Count("evaluations")
 		if pi != nil {
 			run.Fail("c20/save/panic", pi.Sig(), "Save panicked: %s\n%s", pi.Value, pi.Stack)
 			return
@@ -624,6 +625,7 @@ func runReal(run *core.Run, w *workload) {
 		}
 		run.Event("real save#%d fault=%s err=%v", si, faultNames[s.fault], serr != nil)
 		run.Count("real-dir-saves")
+		run.Count("evaluations")
 		run.Case(fmt.Sprintf("real:%x:%d", run.T.Seed, si))
 		if plan != nil {
 			run.Count("fault-fired/resolver-path(real-dir)")
